@@ -62,6 +62,8 @@ type world struct {
 	w      *tracelog.Writer
 	t      int
 	digest zcommon.ForkDigest
+	// net mode: bootstraps are stored under the content id the protocol derives from the key
+	bootByKey bool
 }
 
 func (w *world) open() error {
@@ -240,7 +242,11 @@ func (w *world) get(k []byte, id []byte) ([]byte, []int) {
 func (w *world) observe() {
 	boot := [][]int{}
 	for i := 0; i < nIds; i++ {
-		_, r := w.get(key(0x10, w.ids[i]), w.ids[i])
+		id := w.ids[i]
+		if w.bootByKey {
+			id = cid(key(0x10, w.ids[i]))
+		}
+		_, r := w.get(key(0x10, w.ids[i]), id)
 		boot = append(boot, r)
 	}
 	upd := []map[string]any{}
@@ -280,6 +286,16 @@ func (w *world) observe() {
 // ---- drivers ---------------------------------------------------------------------------------------
 
 func newWorld(tw *tracelog.Writer, rng *rand.Rand, t int) (*world, error) {
+	w, err := newWorld0(tw, rng, t)
+	if err != nil {
+		return nil, err
+	}
+	tw.Emit(map[string]any{"ev": "init", "t": t, "p0": fmt.Sprint(w.p0), "fork": fmt.Sprintf("%x", w.digest[:])})
+	w.observe()
+	return w, nil
+}
+
+func newWorld0(tw *tracelog.Writer, rng *rand.Rand, t int) (*world, error) {
 	w := &world{fs: vfs.NewMem(), w: tw, t: t}
 	for i := range w.ids {
 		w.ids[i] = make([]byte, 32)
@@ -290,8 +306,6 @@ func newWorld(tw *tracelog.Writer, rng *rand.Rand, t int) (*world, error) {
 	if err := w.open(); err != nil {
 		return nil, err
 	}
-	tw.Emit(map[string]any{"ev": "init", "t": t, "p0": fmt.Sprint(w.p0), "fork": fmt.Sprintf("%x", w.digest[:])})
-	w.observe()
 	return w, nil
 }
 
@@ -394,6 +408,7 @@ func Main(args []string) error {
 	runs := fs.Int("runs", 20, "seeded random runs")
 	nops := fs.Int("ops", 40, "operations per random run")
 	in := fs.String("in", "", "TLC-generated behaviours (ndjson)")
+	mode := fs.String("mode", "store", "store: beacon.Storage alone (BeaconStore.tla); net: the network's intake validate -> store (BeaconNet.tla)")
 	if err := fs.Parse(args); err != nil {
 		return err
 	}
@@ -414,12 +429,22 @@ func Main(args []string) error {
 			if len(sc.Bytes()) == 0 {
 				continue
 			}
+			t++
+			tw.Emit(map[string]any{"ev": "case", "t": t, "generated": true})
+			if *mode == "net" {
+				var ops []genNetOp
+				if err := json.Unmarshal(sc.Bytes(), &ops); err != nil {
+					return err
+				}
+				if err := replayNet(tw, *seed*7919+int64(t), t, ops); err != nil {
+					return err
+				}
+				continue
+			}
 			var ops []genOp
 			if err := json.Unmarshal(sc.Bytes(), &ops); err != nil {
 				return err
 			}
-			t++
-			tw.Emit(map[string]any{"ev": "case", "t": t, "generated": true})
 			if err := replay(tw, *seed*7919+int64(t), t, ops); err != nil {
 				return err
 			}
@@ -428,6 +453,12 @@ func Main(args []string) error {
 	}
 	for i := 0; i < *runs; i++ {
 		t++
+		if *mode == "net" {
+			if err := randomNet(tw, *seed*1000003+int64(i), t, *nops); err != nil {
+				return err
+			}
+			continue
+		}
 		if err := randomRun(tw, *seed*1000003+int64(i), t, *nops); err != nil {
 			return err
 		}
